@@ -593,6 +593,9 @@ def run(ctx):
     from .c09 import r5b_completion_flag
 
     r5b_completion_flag(ctx, 'C14.R2')
+    from .shared import queue_put_retries_until_done
+
+    queue_put_retries_until_done(ctx, 'C14.R2')
     r8_utc_timestamp(ctx)
     r1_derivations(ctx)
     r2_key_tables(ctx)
